@@ -46,13 +46,15 @@ Fixpoint entered_ids (os : list oev) : list N :=
   end.
 
 (* what happened first to connection c: its response was read completely, cut
-   short, or the client left *)
-Inductive fate := Served | Truncated | Left | Nothing.
+   short, the client saw its connection end without a response while it was
+   still there, or the client left of its own accord *)
+Inductive fate := Served | Truncated | SawEnd | Left | Nothing.
 Fixpoint fate_of (c : N) (os : list oev) : fate :=
   match os with
   | [] => Nothing
   | ORespRead x true :: os' => if x =? c then Served else fate_of c os'
   | ORespRead x false :: os' => if x =? c then Truncated else fate_of c os'
+  | OSawEof x :: os' => if x =? c then SawEnd else fate_of c os'
   | OClientGone x :: os' => if x =? c then Left else fate_of c os'
   | _ :: os' => fate_of c os'
   end.
